@@ -121,6 +121,15 @@ def join(*vals) -> Any:
     return Arr(frozenset(tags))
 
 
+class NTuple(tuple):
+    """A NamedTuple value: a tuple plus its field names."""
+
+    def __new__(cls, items, fields):
+        self = super().__new__(cls, items)
+        self.fields = tuple(fields)
+        return self
+
+
 class Interp:
     def __init__(self, repo: Repo, hooks: "Hooks") -> None:
         self.repo = repo
@@ -398,6 +407,8 @@ class Interp:
 
     # ------------------------------------------------------------ attributes
     def getattr(self, base, name: str, st: State, func: Func, depth: int) -> list[tuple[State, Any]]:
+        if isinstance(base, NTuple) and name in base.fields:
+            return [(st, base[base.fields.index(name)])]
         if isinstance(base, Obj):
             fields = st.heap.setdefault(base.name, {})
             if name in fields:
@@ -543,6 +554,13 @@ class Interp:
                 return [(s2, ListRef(self._list_counter))]
             if fn.text == "bool" and len(args) == 1 and not kwargs:
                 return [(s2, b) for s2, b in self.truth(args[0], st, "")]
+            nt = self._namedtuple_fields(fn.text)
+            if nt is not None:
+                # constructing a NamedTuple of the package: a tuple whose components also answer to their field names
+                given = dict(zip(nt, args))
+                given.update(kwargs)
+                if len(args) <= len(nt) and all(n_ in given for n_ in nt):
+                    return [(st, NTuple(tuple(given[n_] for n_ in nt), tuple(nt)))]
             if self.track_raises and self._is_exception_class(fn.text):
                 return [(st, ExcVal(fn.text, tuple(args), tuple(sorted(kwargs.items(), key=lambda kv: kv[0]))))]
             if getattr(self, "interpret_private", False):
@@ -572,6 +590,12 @@ class Interp:
                 else:
                     work.append((s2, i + 1))
         return out
+
+    def _namedtuple_fields(self, q: str):
+        c = self.repo.classes.get(q)
+        if c is not None and any(b.split(".")[-1] == "NamedTuple" for b in c.base_names):
+            return list(c.fields)
+        return None
 
     def _is_exception_class(self, q: str) -> bool:
         if q in self.repo.classes:
